@@ -1,3 +1,167 @@
 import Model
 import Spec
 import Gen
+import Proofs.RoundTrip
+import Proofs.Header
+/-!
+  C01 — messages survive a wire round trip in both directions.
+  API direction: proved at full strength (`C01_api_*`), for every dictionary, every header,
+  every canonical tree of every data type, any nesting, any size below 2^24.
+  Wire direction: the full statement is FALSE of the code for three Address shapes (theorems
+  `C01_wire_counterexample_*`; replayed on the implementation and recorded as known findings);
+  the statement stays visible as `C01_wire_Statement`.
+-/
+namespace DV.Props.C01
+open DV DV.Spec
+
+/-- API direction, AVP level. For every typing `ty`, every tree `as` of canonical values whose
+    types are those `ty` assigns (`typedOkL`), of total size below 2^24: decoding the encoded
+    bytes returns the same ordered tree - code, flags, vendor id, typed value, nesting - with
+    every Length field filled in (`wireL`). -/
+theorem C01_api_avps (ty : Nat → Nat → Nat) (as : List AVP)
+    (hc : canonL as = true) (ht : typedOkL ty as = true) (hsz : lenL as < 16777216) :
+    decodeAVPs ty ((encL as).length + 1) (encL as) = .ok (wireL as) := by
+  rw [encL_length as hc]
+  exact rt_list ty as hc ht hsz _ (Nat.le_refl _)
+
+/-- ... and serialising what was read yields identical bytes. -/
+theorem C01_api_reserialise (as : List AVP) : encL (wireL as) = encL as := (encL_wire as).1
+
+/-- the tree read back differs from the one written in nothing but the Length fields, and
+    reading it again changes nothing -/
+theorem C01_api_same_tree (as : List AVP) : wireL (wireL as) = wireL as := wireL_idem as
+
+/-- API direction, message level (`ReadMessage (Serialize m)`): any flag byte, any command the
+    dictionary defines with rules for that R bit, any application / hop-by-hop / end-to-end id. -/
+theorem C01_api_msg (d : DictFn) (m : Msg) (nreq nans : Nat)
+    (hv : m.hdr.version < 256) (hf : m.hdr.flags < 256) (hcmd : m.hdr.cmd < 16777216)
+    (happ : m.hdr.app < 4294967296) (hh : m.hdr.hbh < 4294967296) (he : m.hdr.e2e < 4294967296)
+    (hlen : m.hdr.len = m.len) (hsz : m.len < 16777216)
+    (hcmdr : d.cmdRules m.hdr.app m.hdr.cmd = some (nreq, nans))
+    (hrules : (if isRequest m.hdr.flags then nreq else nans) ≠ 0)
+    (hc : canonL m.avps = true) (ht : typedOkL (d.avpType m.hdr.app) m.avps = true) :
+    decodeMsg d m.enc = .ok { hdr := m.hdr, avps := wireL m.avps } := by
+  have hel := encL_length m.avps hc
+  have hhl := header_enc_length m.hdr
+  unfold decodeMsg Msg.enc
+  have h1 : ¬ (m.hdr.enc ++ encL m.avps).length < 20 := by simp [hhl]
+  simp only [h1, if_false]
+  rw [List.take_left' hhl, header_roundtrip m.hdr hv (by rw [hlen]; exact hsz) hf hcmd happ hh he]
+  simp only [hcmdr]
+  have hl20 : ¬ m.hdr.len < 20 := by rw [hlen, Msg.len]; omega
+  simp only [hl20, if_false]
+  rw [List.drop_left' hhl]
+  have htake : (encL m.avps).take (m.hdr.len - 20) = encL m.avps := by
+    apply List.take_of_length_le; rw [hlen, Msg.len, hel]; omega
+  rw [htake]
+  have hb : ¬ (encL m.avps).length < m.hdr.len - 20 := by rw [hlen, Msg.len, hel]; omega
+  simp only [hb, if_false, hrules]
+  rw [C01_api_avps (d.avpType m.hdr.app) m.avps hc ht (by rw [Msg.len] at hsz; omega)]
+
+/-! ### wire direction -/
+
+/-- The full wire-direction statement: every well-formed body that is read re-serialises to
+    exactly its bytes. -/
+def C01_wire_Statement : Prop :=
+  ∀ (ty : Nat → Nat → Nat) (bs : Bytes) (as : List AVP),
+    wfBody ty bs = true → decodeAVPs ty (bs.length + 1) bs = .ok as → encL as = bs
+
+mutual
+theorem valbeq_eq : ∀ x y : Val, x.beq y = true → x = y
+  | .str t b, .str t' b', h => by simp [Val.beq] at h; rw [h.1, h.2]
+  | .addr b, .addr b', h => by simp [Val.beq] at h; rw [h]
+  | .ip4 b, .ip4 b', h => by simp [Val.beq] at h; rw [h]
+  | .ip6 b, .ip6 b', h => by simp [Val.beq] at h; rw [h]
+  | .fix t n, .fix t' n', h => by simp [Val.beq] at h; rw [h.1, h.2]
+  | .time u, .time u', h => by simp [Val.beq] at h; rw [h]
+  | .group as, .group as', h => by simp only [Val.beq] at h; rw [beqL_eq as as' h]
+  | .str _ _, .addr _, h | .str _ _, .ip4 _, h | .str _ _, .ip6 _, h | .str _ _, .fix _ _, h
+  | .str _ _, .time _, h | .str _ _, .group _, h => by simp [Val.beq] at h
+  | .addr _, .str _ _, h | .addr _, .ip4 _, h | .addr _, .ip6 _, h | .addr _, .fix _ _, h
+  | .addr _, .time _, h | .addr _, .group _, h => by simp [Val.beq] at h
+  | .ip4 _, .str _ _, h | .ip4 _, .addr _, h | .ip4 _, .ip6 _, h | .ip4 _, .fix _ _, h
+  | .ip4 _, .time _, h | .ip4 _, .group _, h => by simp [Val.beq] at h
+  | .ip6 _, .str _ _, h | .ip6 _, .addr _, h | .ip6 _, .ip4 _, h | .ip6 _, .fix _ _, h
+  | .ip6 _, .time _, h | .ip6 _, .group _, h => by simp [Val.beq] at h
+  | .fix _ _, .str _ _, h | .fix _ _, .addr _, h | .fix _ _, .ip4 _, h | .fix _ _, .ip6 _, h
+  | .fix _ _, .time _, h | .fix _ _, .group _, h => by simp [Val.beq] at h
+  | .time _, .str _ _, h | .time _, .addr _, h | .time _, .ip4 _, h | .time _, .ip6 _, h
+  | .time _, .fix _ _, h | .time _, .group _, h => by simp [Val.beq] at h
+  | .group _, .str _ _, h | .group _, .addr _, h | .group _, .ip4 _, h | .group _, .ip6 _, h
+  | .group _, .fix _ _, h | .group _, .time _, h => by simp [Val.beq] at h
+theorem avpbeq_eq : ∀ x y : AVP, x.beq y = true → x = y
+  | .mk c f l v d, .mk c' f' l' v' d', h => by
+    simp only [AVP.beq, Bool.and_eq_true, beq_iff_eq] at h
+    obtain ⟨⟨⟨⟨h1, h2⟩, h3⟩, h4⟩, h5⟩ := h
+    rw [h1, h2, h3, h4, valbeq_eq d d' h5]
+theorem beqL_eq : ∀ x y : List AVP, beqL x y = true → x = y
+  | [], [], _ => rfl
+  | a :: r, a' :: r', h => by
+    simp only [beqL, Bool.and_eq_true] at h
+    rw [avpbeq_eq a a' h.1, beqL_eq r r' h.2]
+  | [], _ :: _, h => by simp [beqL] at h
+  | _ :: _, [], h => by simp [beqL] at h
+end
+
+theorem okIs_eq (r : Res (List AVP)) (as : List AVP) (h : okIs r as = true) : r = .ok as := by
+  cases r with
+  | ok x => simp only [okIs] at h; rw [beqL_eq x as h]
+  | err e => simp [okIs] at h
+  | panic p => simp [okIs] at h
+
+/-- a typing that calls every code an Address -/
+def tyAddr : Nat → Nat → Nat := fun _ _ => T.address
+
+/-- Host-IP-Address, family 2 (IPv6), 16 octets that are an IPv4-mapped address -/
+def witV4Mapped : Bytes := [0,0,1,1, 0x40, 0,0,26, 0,2, 0,0,0,0,0,0,0,0,0,0,255,255,10,1,2,3, 0,0]
+/-- family 8 (E.164) with 14 octets: 16 octets in all -/
+def witOther16 : Bytes := [0,0,1,1, 0x40, 0,0,24, 0,8, 49,50,51,52,53,54,55,56,57,48,49,50,51,52]
+/-- family 8 with 2 octets: 4 octets in all -/
+def witOther4 : Bytes := [0,0,1,1, 0x40, 0,0,12, 0,8, 49,50]
+
+theorem refute (bs : Bytes) (as : List AVP) (hw : wfBody tyAddr bs = true)
+    (hd : okIs (decodeAVPs tyAddr (bs.length + 1) bs) as = true) (hne : (encL as == bs) = false) :
+    ¬ C01_wire_Statement := by
+  intro hS
+  have := hS tyAddr bs as hw (okIs_eq _ _ hd)
+  rw [this] at hne
+  simp at hne
+
+/-- F1: the wire-direction statement is false: a family-2 Address holding an IPv4-mapped
+    address re-serialises as family 1 with 4 octets. -/
+theorem C01_wire_counterexample_v4mapped : ¬ C01_wire_Statement :=
+  refute witV4Mapped [.mk 257 64 26 0 (.addr [0,0,0,0,0,0,0,0,0,0,255,255,10,1,2,3])]
+    (by decide) (by decide) (by decide)
+
+/-- F2: an Address of another family whose payload is 16 octets re-serialises as IPv6. -/
+theorem C01_wire_counterexample_other16 : ¬ C01_wire_Statement :=
+  refute witOther16 [.mk 257 64 24 0 (.addr [0,8, 49,50,51,52,53,54,55,56,57,48,49,50,51,52])]
+    (by decide) (by decide) (by decide)
+
+/-- F3: ... and one whose payload is 4 octets re-serialises as IPv4. -/
+theorem C01_wire_counterexample_other4 : ¬ C01_wire_Statement :=
+  refute witOther4 [.mk 257 64 12 0 (.addr [0,8,49,50])] (by decide) (by decide) (by decide)
+
+/-- regenerated facts the codec model hard-codes -/
+theorem C01_gen : Gen.HeaderLength = 20 ∧ Gen.Vbit = 128 ∧ Gen.rfc868offset = rfc868 ∧
+    Gen.rfc2030offset = rfc2030 ∧ Gen.typeIds.map (·.2) = List.range 19 ∧
+    Gen.hdrLayoutEnc = Gen.hdrLayoutDec ∧
+    (Gen.available.all (fun p => Gen.decoderKeys.contains p.2)) = true := by decide
+
+/-- non-vacuity of `C01_api_avps`: every data type, a group in a group, an empty group, an odd
+    string, an unknown vendor-specific AVP, an E.164 address, times on both sides of 2036 -/
+def demoTy : Nat → Nat → Nat := fun c v =>
+  if v ≠ 0 then T.unknown else
+  if c = 1 then T.grouped else if c = 2 then T.octets else if c = 3 then T.address else
+  if c = 4 then T.time else if c = 5 then T.u64 else if c = 6 then T.ipv6 else T.f32
+
+def demoTree : List AVP :=
+  [.mk 1 64 0 0 (.group [.mk 1 0 0 0 (.group []), .mk 2 0 0 0 (.str 12 [1,2,3])]),
+   .mk 9 192 0 77 (.str 0 [9]), .mk 3 64 0 0 (.addr [0,8,49,50,51]),
+   .mk 4 0 0 0 (.time 2085978495), .mk 4 0 0 0 (.time 2085978496),
+   .mk 5 0 0 0 (.fix 17 18446744073709551615), .mk 6 0 0 0 (.ip6 [1,2,3,4,5,6,7,8,9,10,11,12,13,14,15,16]),
+   .mk 7 32 0 0 (.fix 5 2143289344)]
+
+example : canonL demoTree = true ∧ typedOkL demoTy demoTree = true ∧ lenL demoTree < 16777216 := by decide
+
+end DV.Props.C01
